@@ -34,6 +34,11 @@ def base(dll, kind, npk, win, seed):
     if seed % 2 == 0:
         # the applications run cyclic timers of their own (about 1 s): serving them must not postpone the give-up of a session
         script += [dict(t=300, s=0, op='add_timer', cid=900, delta=1_000_000, ret=True), dict(t=700, s=1, op='add_timer', cid=901, delta=930_000, ret=True)]
+    if dll == 'j1939-22' and seed % 3 == 1:
+        # both applications have a short parameter group waiting in a multi-PG collection buffer with a long time limit (4 s):
+        # a deadline that far away must not postpone the give-up of a session either
+        script += [dict(t=1100, s=0, op='send', a=[0, 0xD1, db, 6, sa, dict(seed=seed + 3, len=5), 4_000_000, 3]),
+                   dict(t=1150, s=1, op='send', a=[0, 0xD2, sa, 6, db, dict(seed=seed + 4, len=6), 4_000_000, 3])]
     script.sort(key=lambda e: e['t'])
     return dict(stacks=stacks, lat=[500], jit=[1], script=script, horizon=horizon, faults=[], tf=tf, kind=kind, dll=dll)
 
@@ -85,7 +90,7 @@ def abort_reason(e, dll):
 def oracle(sc, res):
     v = []
     dll, tf = sc['dll'], sc['tf']
-    sends = [e for e in sc['script'] if e['op'] == 'send' and e['s'] == 0]
+    sends = [e for e in sc['script'] if e['op'] == 'send' and e['s'] == 0 and len(e['a']) <= 6]       # (not the waiting multi-PG groups)
     p1 = tuple(payload(sends[0]['a'][5]))
     p2 = tuple(payload(sends[1]['a'][5]))
     # 1. exact payload or nothing
@@ -98,7 +103,7 @@ def oracle(sc, res):
     if len(first) > 1:
         v.append(dict(kind='duplicate-delivery', n=len(first), faults=sc['faults']))
     # 2. both stacks give the session up within the bound after the last frame of the first exchange
-    frames = [e for e in res.trace if e[2] in ('tx',) and e[0] < tf]
+    frames = [e for e in res.trace if e[2] in ('tx',) and e[0] < tf and ((e[3] >> 16) & 0xFF) != 0x25]     # (not the multi-PG frames of the waiting groups)
     probes = [e for e in res.trace if e[2] == 'probe' and e[0] < tf]
     # the bound of the state: 1.25 s everywhere, 3 s only where an FD originator has sent its end-of-message status and waits for
     # the acknowledge ("at most 1.25 s, 3 s when waiting for an FD end-of-message acknowledge")
@@ -108,7 +113,7 @@ def oracle(sc, res):
         # the clock of the bound starts at the last frame that is not itself an abort caused by giving up
         lastf = max(e[0] for e in frames if not is_abort(e, dll)) if any(not is_abort(e, dll) for e in frames) else frames[-1][0]
         limit = lastf + bound + 2 * PROBE + 2000
-        late = [p for p in probes if p[0] > limit and any(p[3])]
+        late = [p for p in probes if p[0] > limit and any(p[5])]       # transport sessions (a group waiting out its time limit is none)
         if late:
             v.append(dict(kind='session-not-released-in-time', last_frame=lastf, still_open_at=late[-1][0], open=late[-1][3], faults=sc['faults']))
     for p in probes:
